@@ -353,6 +353,10 @@ class ArgumentParser:
         attached to -isystem/-include (e.g. -isystem/dir), or a separate
         value that starts with a dash (e.g. -I -dir).
         """
+        # "-Xclang <arg>" hands <arg> to the compiler proper; CMake writes a
+        # precompiled header as "-Xclang -include -Xclang <header>".
+        argv = [arg for arg in argv if arg != "-Xclang"]
+
         result = []
         i = 0
         while i < len(argv):
